@@ -30,9 +30,21 @@ def run_case(case, rec, cid):
     desc = case["rec"]
     rnd = random.Random(case["seed"])
     r = recur.build(desc)
-    pts, complete = recur.iterate(rec, cid, desc, r)
-    if not pts or recur.known_class(desc):
-        return True      # queries are judged against a correctly iterated series only
+    if recur.known_class(desc):
+        # the iteration of this class is a recorded C12 finding: C13 speaks about what iteration yields, so the series is
+        # handed to the specification as given and only the queries are judged
+        forward = not (desc["fmt"] == 4 and desc["n"] == 0)
+        pts, complete = [], True
+        for q in r:
+            pts.append(q)
+            if len(pts) >= (desc["n"] + 2 if desc["n"] else recur.UNBOUNDED_TAKE):
+                complete = False
+                break
+        rec.ev("IterGiven", cid, inp=recur.inp_of(desc, r), forward=forward, pts=[proj_tp(q) for q in pts], complete=complete)
+    else:
+        pts, complete = recur.iterate(rec, cid, desc, r)
+    if not pts:
+        return True
     exact = desc["fmt"] == 1 or recur.is_exact(desc["d"])
     forward = not (desc["fmt"] == 4 and desc["n"] == 0)
     lo, hi = (pts[0], pts[-1]) if forward else (pts[-1], pts[0])
@@ -43,6 +55,8 @@ def run_case(case, rec, cid):
         z = rnd.choice([(0, 0), (1, 0), (-3, -30), (5, 45), (-11, 0)])
         probes.append(("member", p.to_time_zone(TimeZone(hours=z[0], minutes=z[1]))))
         probes.append(("member", rnd.choice([p.to_week_date, p.to_ordinal_date, p.to_calendar_date])()))
+        for m24 in _as_2400(p, rnd):
+            probes.append(("member", m24))      # the same instant written as 24:00 of the previous day
         if not float(p.second_of_minute).is_integer():
             probes.append(("near", p + Duration(seconds=0.5)))
             probes.append(("near", p - Duration(seconds=0.75)))
@@ -81,7 +95,7 @@ def run_case(case, rec, cid):
             _q(rec, cid, "next", p, lambda p=p: r.get_next(p))
         if (not forward) or exact:
             _q(rec, cid, "prev", p, lambda p=p: r.get_prev(p))
-    if forward and recur.known_class(desc) is None:
+    if forward:
         for kind, p in probes:
             whole = float(p.second_of_minute).is_integer() and p._second_of_minute is not None
             if whole and (complete or p < hi):
@@ -136,6 +150,32 @@ def mk_second(desc):
     return mk_tp(desc["s"])
 
 
+def _as_2400(p, rnd):
+    """Spellings of p's instant as 24:00 of the previous day: in p's own zone when p is at local midnight, and in the zone
+    where p's instant is local midnight (whole-minute instants only)."""
+    from harness.common import TimePoint as _TP
+    out = []
+    cands = [p]
+    if float(p.second_of_minute) == 0 and float(p.minute_of_hour).is_integer():
+        u = p.to_utc()
+        h, mi = int(u.hour_of_day), int(u.minute_of_hour)
+        if (h or mi) and rnd.random() < 0.5:
+            cands.append(p.to_time_zone(TimeZone(hours=-h, minutes=-mi)))
+    for c in cands:
+        if int(c.hour_of_day) == 0 and float(c.minute_of_hour) == 0 and float(c.second_of_minute) == 0:
+            prev = c - Duration(days=1)
+            kw = dict(year=prev.year, hour_of_day=24, minute_of_hour=0, second_of_minute=0,
+                      time_zone_hour=prev.time_zone.hours, time_zone_minute=prev.time_zone.minutes)
+            if prev.get_is_calendar_date():
+                kw.update(month_of_year=prev.month_of_year, day_of_month=prev.day_of_month)
+            elif prev.get_is_ordinal_date():
+                kw.update(day_of_year=prev.day_of_year)
+            else:
+                kw.update(week_of_year=prev.week_of_year, day_of_week=prev.day_of_week)
+            out.append(_TP(**kw))
+    return out
+
+
 def classify(case, rej, events):
     if rej["op"] in ("IterNext", "IterStop"):
         return recur.known_class(case["rec"])
@@ -148,8 +188,13 @@ def expand(job):
         sp = gen.spelling(rnd)
         m = MEANING[sp]
         desc = recur.rand_recurrence(rnd, m, whole_anchor=True, maxn=rnd.choice([5, 6, 8]))
-        while recur.known_class(desc) or recur.float_class(desc):     # those series are C12's business (known findings there)
+        while recur.float_class(desc):     # float accumulation in the iteration itself: C12's business (known finding there)
             desc = recur.rand_recurrence(rnd, m, whole_anchor=True, maxn=rnd.choice([5, 6, 8]))
+        if rnd.random() < 0.15 and desc["a"]["prec"] == "hms" and not desc["a"].get("dec") and desc["fmt"] != 1:
+            # anchors at local midnight (a third of them in UTC): members then have a 24:00 spelling in their own zone
+            desc["a"] = dict(desc["a"], hh=0, mi=0, ss=0)
+            if rnd.random() < 0.4:
+                desc["a"].update(zh=0, zm=0)
         if rnd.random() < 0.2 and desc["fmt"] == 3 and desc["a"]["prec"] == "hms" and recur.is_exact(desc["d"]) \
                 and not any(desc["d"].get(k_) for k_ in ("mi", "s")) and any(desc["d"].values()):
             desc["a"] = dict(desc["a"], dec=rnd.choice(["5", "75", "25"]))      # dyadic fraction: float arithmetic stays exact
